@@ -425,7 +425,7 @@ func emptyRecords13(c *vh.Ctx, cb combo, certs testCerts, key string, in map[str
 	panicked, pval := vh.Recover(func() { got, rerr = readExactly(p.client, len(want), c.Rng, p.client.SetReadDeadline) })
 	werr := <-errc
 	if panicked || werr != nil || rerr != nil || !bytes.Equal(got, want) {
-		c.Fail("c25-empty-records/"+key, "data interleaved with zero-length application data records (never more than 32 in a row) does not arrive intact",
+		c.Fail("c25-empty-records/"+key, "data interleaved with zero-length application data records (never more than 24 in a row) does not arrive intact",
 			map[string]any{"suite": in["suite"], "version": in["version"], "pattern": pat},
 			fmt.Sprint(len(got), " of ", len(want), " bytes, read err=", rerr, " write err=", werr, " panic=", pval), "all bytes")
 	}
